@@ -189,14 +189,8 @@ Definition C13_oracle_ok (c : C13_case) : bool :=
    field written by write_cdr_parameter is truncated (finding C13-u16-param-length)
    class 2: a resource limit is Length::Limited(i32::MAX), which is announced as
    LENGTH_UNLIMITED (finding C13-length-limited-max) *)
-Definition is_limited_max (l : length_t) : bool :=
-  match l with Limited n => n =? LENGTH_UNLIMITED | Unlimited => false end.
 Definition has_limited_max (v : value) : bool :=
-  match v with
-  | VT t => let r := t_resource_limits _ t in
-            is_limited_max (rs_ms r) || is_limited_max (rs_mi r) || is_limited_max (rs_mspi r)
-  | _ => false
-  end.
+  match v with VT t => res_limited_max (t_resource_limits _ t) | _ => false end.
 Definition known_v (v : value) : N :=
   if negb (fits_v v) then 1%N else if has_limited_max v then 2%N else 0%N.
 Definition C13_known (c : C13_case) : N :=
